@@ -173,6 +173,20 @@ CLAIMED["C05"] = dict(
     technique="Coq proof (relational simulation between engine instantiations of the model) + vm_compute correspondence per engine (K-macro, K-pure) + three-way differential",
     design_ref="DESIGN.md section 5 C05")
 
+CLAIMED["C15"] = dict(
+    category="proof",
+    text="Actor bookkeeping model (Model/Actors.v: target resolution order and ambiguity rule, registry, children map, service keys, delayed sends "
+         "with ids / supersede / cancel, stopChild, recursive stop, spawn id scheme) with theorems for ALL system states: a resolved target is the "
+         "registered actor, one of my children or my parent (C15_addressed_actor_only), systemId wins, ambiguous and unknown names resolve to nobody; "
+         "a delivery changes exactly the addressed actor's inbox exactly once and nothing else, a stopped actor receives nothing; cancel(id) removes "
+         "that pending send and only that one, and what is not pending never fires; stop() stops the actor and every actor in its children map, "
+         "empties the map, leaves none of its delayed sends, revives nobody and is idempotent. 'stop() stops every spawned child' is REFUTED at HEAD "
+         "for a child whose explicit id was reused while alive (C15_stop_cascade_refuted_for_reused_id = recorded finding F30). Two defects found by "
+         "the correspondence were repaired by fix: commits (F20 registry not cleaned by stop(), F29 sync runner pops a reused id). Tied to the code by "
+         "K-actor on both engines under virtual time; handlers of different actors interleaving inside one macrostep are outside the model.",
+    technique="Coq proof over executable actor-bookkeeping model + vm_compute correspondence (K-actor) + monitor",
+    design_ref="DESIGN.md section 5 C15")
+
 PENDING_REASON = "not claimed yet: the check for this property is still being built in this round (DESIGN.md section 5 has the plan)"
 
 
